@@ -174,7 +174,124 @@ func (d *verifFaultDriver) Open(dsn string) (driver.Conn, error) {
 	if err != nil {
 		return nil, err
 	}
+	// connection settings of the handle this one stands in for (verifCarryConnSettings)
+	for _, q := range verifConnSetup.get(dsn) {
+		if _, err := c.(*sqlite3.SQLiteConn).Exec(q, nil); err != nil {
+			c.Close()
+			return nil, err
+		}
+	}
 	return &vfConn{c.(*sqlite3.SQLiteConn), dsn}, nil
+}
+
+// ---------------------------------------------------------------- connection settings of the real handles
+// The harness replaces the *sql.DB handles that initDB built by handles of the wrapping driver on the
+// same files.  Whatever the tree under test configured PER CONNECTION (DSN parameters, a connect hook)
+// would be lost that way, so the real handle is asked first (PRAGMA on fresh connections: database/sql
+// pools connections, a DSN parameter reaches every new one, a PRAGMA statement only the one it ran on)
+// and every setting in which it differs from a plain connection of the wrapping driver is replayed on
+// each connection the wrapping driver opens for that file.
+
+// the settings of a connection that decide what a transaction, a roll-back and a crash mean, and how
+// much of a transaction stays in memory
+var verifConnPragmas = []string{"journal_mode", "synchronous", "locking_mode", "cache_size", "cache_spill", "page_size",
+	"temp_store", "mmap_size", "busy_timeout", "query_only", "secure_delete", "wal_autocheckpoint", "journal_size_limit",
+	"read_uncommitted", "foreign_keys", "recursive_triggers"}
+
+// not replayed: page_size belongs to the file; an exclusive locking mode would shut out the harness's own
+// readers of the file (it is reported, not carried over)
+var verifConnNotCarried = map[string]bool{"page_size": true, "locking_mode": true}
+
+type verifConnProbe struct {
+	Handle   string            `json:"handle"`
+	Conn     int               `json:"connection"`
+	Settings map[string]string `json:"settings"`
+}
+
+// the pragmas as answered by n connections of db held at the same time (so that they are n different
+// connections: the pool's idle one, if any, and fresh ones)
+func verifProbeDB(db *sql.DB, handle string, n int) ([]verifConnProbe, error) {
+	ctx := context.Background()
+	var conns []*sql.Conn
+	defer func() {
+		for _, c := range conns {
+			c.Close()
+		}
+	}()
+	var out []verifConnProbe
+	for i := 0; i < n; i++ {
+		c, err := db.Conn(ctx)
+		if err != nil {
+			return out, err
+		}
+		conns = append(conns, c)
+		p := verifConnProbe{Handle: handle, Conn: i, Settings: map[string]string{}}
+		for _, name := range verifConnPragmas {
+			var v sql.NullString
+			if err := c.QueryRowContext(ctx, "PRAGMA "+name).Scan(&v); err != nil {
+				if err == sql.ErrNoRows {
+					continue
+				}
+				return out, err
+			}
+			p.Settings[name] = strings.ToLower(v.String)
+		}
+		out = append(out, p)
+	}
+	return out, nil
+}
+
+type verifConnSetupCtl struct {
+	mu    sync.Mutex
+	stmts map[string][]string
+}
+
+var verifConnSetup verifConnSetupCtl
+
+func (c *verifConnSetupCtl) get(file string) []string {
+	c.mu.Lock()
+	defer c.mu.Unlock()
+	return c.stmts[file]
+}
+
+func (c *verifConnSetupCtl) set(file string, stmts []string) {
+	c.mu.Lock()
+	defer c.mu.Unlock()
+	if c.stmts == nil {
+		c.stmts = map[string][]string{}
+	}
+	c.stmts[file] = stmts
+}
+
+// real: the probed connections of the handle initDB built for `file`.  Every setting in which the first
+// probed connection that deviates from a plain connection of the wrapping driver differs from it is from
+// now on applied to each connection the wrapping driver opens for the file.  Returns the statements.
+func verifCarryConnSettings(file string, real []verifConnProbe) ([]string, error) {
+	verifConnSetup.set(file, nil)
+	plainDB, err := verifOpenFaultDB(file)
+	if err != nil {
+		return nil, err
+	}
+	defer plainDB.Close()
+	plain, err := verifProbeDB(plainDB, "plain", 1)
+	if err != nil {
+		return nil, err
+	}
+	var stmts []string
+	for _, p := range real {
+		for _, name := range verifConnPragmas {
+			v, ok := p.Settings[name]
+			if !ok || verifConnNotCarried[name] || v == plain[0].Settings[name] {
+				continue
+			}
+			stmts = append(stmts, "PRAGMA "+name+" = "+v)
+		}
+		if len(stmts) > 0 {
+			break
+		}
+	}
+	verifConnSetup.set(file, stmts)
+	return stmts, nil
 }
 
 type vfConn struct {
